@@ -23,11 +23,12 @@ LEVEL_NOTE = ("trusted: translator + Xval semantics, the hand models of member c
               "rounding is not modelled (tolerance 1e-9)")
 TECHNIQUE = "Coq proof over translator-regenerated per-case formulas + extracted-model correspondence check (exhaustive tie grid)"
 SITES = ["C13.brier_ens_cell", "C13.sqerr"]
-RULE = ("(a) exhaustive cell grid: every ensemble of 0-3 members over {1,2,3,NaN} x obs in {1,2,3,NaN,+inf} x thresholds {1,2,3} x 4 operators x "
+RULE = ("(a) exhaustive cell grid: every ensemble of 0-3 members over {1,2,3,NaN} and every ensemble of 1-3 slots over {2,NaN,+inf,-inf} with an "
+        "infinite member (valid members above / below every threshold) x obs in {1,2,3,NaN,+inf,-inf} x thresholds {1,2,3} x 4 operators x "
         "fair on/off (a member/obs equal to the threshold in most cells); (a') large ensembles of 32..2100 members (sizes around 2^15, 2^16, "
         "2^31, 2^32 for m^2(m-1) and i(m-i), 2^7/2^8 for the counts), six missing-member patterns, thresholds sweeping i from 0 to m, 4 "
         "operators x fair on/off, cell by cell against the exact oracle; (b) random full calls: 1-3 extra dims of size 1-3, ensemble size 1-4 "
-        "(12%: 33-100 members), "
+        "(12%: 33-100 members; 15%: +inf / -inf members and observations), "
         "obs/weights on random dim subsets (weights possibly with an extra dim), shuffled coordinate order, values on the grid k/2 (|k|<=4), NaN "
         "injected into members (whole ensembles too), obs and weights, 1-3 increasing thresholds or a scalar, all request spellings, and a "
         "malformed stream (bad operator, threshold_dim clashes, decreasing thresholds, ensemble dim missing / in obs / named in the request); "
@@ -38,6 +39,14 @@ TRUSTED = ["hand models in coq/model/C13.v (member counting as list folds, binar
 
 OPS = {"ge": operator.ge, "gt": operator.gt, "le": operator.le, "lt": operator.lt}
 NAN = float("nan")
+INF = float("inf")
+# harness self-check (core.run_check): counters every complete run must have incremented, one per predicate family / input class
+EXPECT_COUNTS = ["corpus_cases", "brier_boundary_probes", "brier_dataset_probes", "oracle_probes", "dtype_probes", "infinite_member_probes",
+                 "large_ensemble_cells", "large_ensemble_infinite_member_cells", "cell_grid_points", "cell_grid_infinite_member",
+                 "cell_grid_ties_member_eq_threshold", "cell_grid_single_valid_member", "cell_grid_no_valid_member",
+                 "ens:ok", "ens:err:ValueError", "ens:weights", "ens:large_ensemble(>=33 members)", "ens:infinite_member", "ens:oracle_checked",
+                 "ens:mean_of_cases_checked", "ens:complement_checked", "ens:custom_threshold_dim", "brier:ok", "brier:err:ValueError",
+                 "brier:invalid=", "brier:oracle_checked", "brier:vs_mse_checked"]
 
 
 def S():
@@ -74,7 +83,10 @@ def cell_grid(ctx, use_model=True):
     ens = []
     for n in range(0, 4):
         ens += [list(c) for c in itertools.product(vals, repeat=n)]
-    obs_vals = [1.0, 2.0, 3.0, NAN, float("inf")]
+    # +inf / -inf members are VALID members (above / below every threshold): counted in m, and in i when they meet the relation
+    for n in range(1, 4):
+        ens += [list(c) for c in itertools.product([2.0, NAN, INF, -INF], repeat=n) if any(np.isinf(x) for x in c)]
+    obs_vals = [1.0, 2.0, 3.0, NAN, INF, -INF]
     thresholds = [1.0, 2.0, 3.0]
     # ensembles of a given size share one implementation call (case dim); size 0 is an all-NaN ensemble of size 1 and 2 for the impl
     results = {}
@@ -120,6 +132,7 @@ def cell_grid(ctx, use_model=True):
     ctx.count("cell_grid_ties_member_eq_threshold", sum(1 for (ek, ok, t, *_), v in results.items() if t in v[0]))
     ctx.count("cell_grid_single_valid_member", sum(1 for k, v in results.items() if sum(1 for x in v[0] if not np.isnan(x)) == 1))
     ctx.count("cell_grid_no_valid_member", sum(1 for k, v in results.items() if all(np.isnan(x) for x in v[0])))
+    ctx.count("cell_grid_infinite_member", sum(1 for k, v in results.items() if any(np.isinf(x) for x in v[0])))
     ctx.exhaustive = True
 
 
@@ -133,6 +146,12 @@ def gen_ens_case(ctx, malformed):
         sizes_f["ens"] = rng.choice([33, 34, 40, 51, 64, 100])
     grid = [Fraction(k, 2) for k in range(-4, 5)]
     fcst = gens.rand_da(rng, sizes_f, values=grid, nan_p=rng.choice([0.0, 0.15, 0.5]))
+    inf_members = rng.random() < 0.15
+    if inf_members:      # +inf / -inf members: valid values above / below every threshold (an overflowed or ratio-type quantity)
+        v = fcst.values.copy().reshape(-1)
+        for _ in range(rng.randint(1, max(1, v.size // 3))):
+            v[rng.randrange(v.size)] = rng.choice([INF, -INF])
+        fcst = fcst.copy(data=v.reshape(fcst.shape))
     if rng.random() < 0.3 and sizes:
         # a whole ensemble missing at one position
         d = rng.choice(list(sizes))
@@ -144,6 +163,10 @@ def gen_ens_case(ctx, malformed):
         sizes_o["z"] = 2
         odims = odims + ["z"]
     obs = gens.rand_da(rng, sizes_o, dims=odims, values=grid, nan_p=rng.choice([0.0, 0.2]))
+    if inf_members and obs.size and rng.random() < 0.5:
+        v = obs.values.copy().reshape(-1)
+        v[rng.randrange(v.size)] = rng.choice([INF, -INF])
+        obs = obs.copy(data=v.reshape(obs.shape))
     w = None
     all_sizes = dict(sizes_o)
     all_sizes.update(sizes)
@@ -265,6 +288,27 @@ def oracle_probes(ctx):
                     compare_with_oracle(ctx, "brier_score_for_ensemble differs from the weighted mean of (i/m - y)^2 - fair correction (exact oracle; "
                                         "weights multiply the corrected score)", ens_oracle_array(c), weights, impl[1], desc_ens(c))
     ctx.count("oracle_probes", 32)
+    # +inf / -inf members are valid (non-missing) members: counted in m, and in i when they meet the relation (inf >= t, -inf < t);
+    # a single valid member that is infinite; an infinite observation; with weights and reduced over the cases
+    fi = xr.DataArray([[INF, 0.0, 1.0, 2.0], [-INF, 0.5, 3.0, NAN], [0.0, 1.0, 2.0, 3.0], [INF, NAN, NAN, NAN], [-INF, INF, NAN, 2.5], [-INF, -INF, NAN, NAN]],
+                      dims=["t", "ens"], coords={"t": range(6)})
+    oi = xr.DataArray([0.0, 2.0, 1.0, 5.0, -INF, INF], dims=["t"], coords={"t": range(6)})
+    wi = xr.DataArray([2.0, 0.5, 3.0, 1.0, 1.5, 1.0], dims=["t"], coords={"t": range(6)})
+    n = 0
+    for opn in OPS:
+        for fair in (True, False):
+            for weights in (None, wi):
+                for pd in ("all", None):
+                    c = dict(fcst=fi, obs=oi, w=weights, ts=[1.0, 2.5], scalar=False, opn=opn, fair=fair, rd=None, pd=pd, tdim="threshold", ens="ens")
+                    impl = call_ens(P, c)
+                    ctx.case(("infinite_member_probe", opn, fair, weights is not None, pd))
+                    n += 1
+                    if impl[0] != "ok":
+                        ctx.violation("brier_score_for_ensemble raises on a valid call (infinite members)", desc_ens(c), "values", impl[1])
+                        continue
+                    compare_with_oracle(ctx, "brier_score_for_ensemble with +inf / -inf members differs from (i/m - y)^2 - fair correction with m = number of "
+                                        "non-missing members, infinite ones included (exact oracle)", ens_oracle_array(c), weights, impl[1], desc_ens(c))
+    ctx.count("infinite_member_probes", n)
     # ensembles stored as integers / float32 with thresholds that are not representable in that dtype: the comparison must be
     # made on the values, not after casting the threshold to the ensemble's dtype
     o2 = xr.DataArray([2.0, 0.7, 3.0], dims=["t"], coords={"t": [0, 1, 2]})
@@ -273,6 +317,9 @@ def oracle_probes(ctx):
         "int64": xr.DataArray(np.array([[1, 2, 3], [0, 1, 1], [2, 2, 3]], dtype=np.int64), dims=["t", "ens"], coords={"t": [0, 1, 2]}),
         "int32": xr.DataArray(np.array([[1, 2, 3], [0, 1, 1], [2, 2, 3]], dtype=np.int32), dims=["t", "ens"], coords={"t": [0, 1, 2]}),
         "float32": xr.DataArray(np.array([[f32, 1.5, 2.5], [f32, f32, 0.25], [0.5, 2.5, f32]], dtype=np.float32), dims=["t", "ens"], coords={"t": [0, 1, 2]}),
+        # unsigned storage (counts, oktas): the function only compares and counts, so the scores are those of the values
+        "uint8": xr.DataArray(np.array([[1, 2, 3], [0, 1, 1], [2, 2, 3]], dtype=np.uint8), dims=["t", "ens"], coords={"t": [0, 1, 2]}),
+        "uint16": xr.DataArray(np.array([[1, 2, 3], [0, 1, 1], [2, 2, 3]], dtype=np.uint16), dims=["t", "ens"], coords={"t": [0, 1, 2]}),
     }
     for dt, fx in ens.items():
         for ts in ([0.7], [0.5, 1.5, 2.5], [0.7, 2.0]):
@@ -287,7 +334,7 @@ def oracle_probes(ctx):
                         continue
                     compare_with_oracle(ctx, "brier_score_for_ensemble on a " + dt + " ensemble differs from the exact oracle (members and thresholds "
                                         "compared by value)", ens_oracle_array(dict(c, fcst=fx.astype(float))), None, impl[1], d)
-    ctx.count("dtype_probes", 72)
+    ctx.count("dtype_probes", 120)
 
 
 LARGE_SIZES = [32, 33, 41, 51, 64, 100, 128, 182, 256, 257, 363, 1000, 1291, 1626, 2100]
@@ -311,11 +358,13 @@ def large_ensemble_probe(ctx, sizes=None):
                 np.where(np.arange(M) % 5 == 0, NAN, base),                # every fifth member missing
                 np.where(np.arange(M) < M - 33, NAN, base),                # exactly 33 (or all, if fewer) valid members
                 np.where(np.arange(M) < M - 1, NAN, base),                 # a single valid member: no correction
-                np.array([float(rng.randint(0, 8)) for _ in range(M)])]    # few distinct values: many members equal to a threshold
+                np.array([float(rng.randint(0, 8)) for _ in range(M)]),    # few distinct values: many members equal to a threshold
+                # +inf / -inf members (valid: above / below every threshold) next to missing ones
+                np.where(np.arange(M) % 7 == 0, INF, np.where(np.arange(M) % 7 == 3, -INF, np.where(np.arange(M) % 11 == 5, NAN, base)))]
         k = rng.randrange(M)
         rows[5][k] = NAN
         f = xr.DataArray(np.array(rows), dims=["case", "ens"], coords={"case": range(len(rows)), "ens": np.arange(M)})
-        o = xr.DataArray([float(M // 2), 0.0, NAN, float(M), float(M - 1), 4.0], dims=["case"], coords={"case": range(len(rows))})
+        o = xr.DataArray([float(M // 2), 0.0, NAN, float(M), float(M - 1), 4.0, float(M // 3)], dims=["case"], coords={"case": range(len(rows))})
         ts = sorted({0.0, 4.0, float(M // 4) + 0.5, float(M // 2), float(M - 1)})
         for opn in OPS:
             for fair in (True, False):
@@ -333,13 +382,16 @@ def large_ensemble_probe(ctx, sizes=None):
                         exp = brier_cell_oracle(list(row), float(o.values[a]), t, opn, fair)
                         got = float(r.values[a, b])
                         npts += 1
+                        if a == 6:
+                            ctx.count("large_ensemble_infinite_member_cells")
                         if not core.close(got, exp):
                             i = sum(1 for x in valid if OPS[opn](x, t))
                             ctx.violation("brier_score_for_ensemble of a large ensemble differs from (i/m - y)^2 - [fair, m>1] i(m-i)/(m^2(m-1)) (exact oracle)",
                                           {"ensemble_size": M, "valid_members_m": len(valid), "members_meeting_the_relation_i": i,
                                            "members": "row %d of large_ensemble_probe(M=%d): %s" % (a, M, ["arange(M)", "arange(M)[::-1]/2", "arange(M), every 5th NaN",
                                                                                                          "arange(M), all but the last 33 NaN", "arange(M), all but the last NaN",
-                                                                                                         str(row.tolist())[:400]][a]),
+                                                                                                         str(row.tolist())[:400],
+                                                                                                         "arange(M) with +inf at k%7==0, -inf at k%7==3, NaN at k%11==5"][a]),
                                            "obs": float(o.values[a]), "threshold": t, "operator": opn, "fair_correction": fair}, exp, got)
                 # reduced over the cases (default request) = plain NaN-skipping mean of the per-case oracle
                 red = call_ens(P, dict(c, pd=None))
@@ -370,9 +422,12 @@ def full_ens(ctx, use_model=True):
             ctx.count("ens:weights")
         if c["fcst"].sizes.get("ens", 0) >= 33:
             ctx.count("ens:large_ensemble(>=33 members)")
+        if bool(np.isinf(c["fcst"].values).any()):
+            ctx.count("ens:infinite_member")
         if i < 2:
             ctx.sample(desc)
         if impl[0] == "ok" and not c["bad"] and "z" not in c["obs"].dims:
+            ctx.count("ens:oracle_checked")
             compare_with_oracle(ctx, "brier_score_for_ensemble differs from the weighted NaN-skipping mean of the exact per-case oracle",
                                 ens_oracle_array(c), c["w"], impl[1], desc)
         if use_model:
@@ -389,6 +444,7 @@ def full_ens(ctx, use_model=True):
         # complementary operator on the implementation
         c2 = dict(c, opn={"ge": "lt", "lt": "ge", "gt": "le", "le": "gt"}[c["opn"]])
         impl2 = call_ens(P, c2)
+        ctx.count("ens:complement_checked")
         if impl2[0] != "ok" or not np.allclose(np.asarray(impl[1]), np.asarray(impl2[1].transpose(*impl[1].dims)), rtol=0, atol=1e-9, equal_nan=True):
             ctx.violation(f"complementary operators disagree: {c['opn']} vs {c2['opn']}", desc, str(impl[1].values.tolist())[:200],
                           str(impl2[1])[:200])
@@ -396,6 +452,7 @@ def full_ens(ctx, use_model=True):
         if c["rd"] is not None or c["pd"] is not None or c["w"] is not None:
             pc = call_ens(P, dict(c, rd=None, pd="all", w=None))
             if pc[0] == "ok":
+                ctx.count("ens:mean_of_cases_checked")
                 check_mean_of_cases(ctx, "brier_score_for_ensemble", pc[1], c["w"], impl[1], desc)
         # custom name of the threshold dimension: same numbers under the other name
         if rng.random() < 0.3 and use_model:
@@ -537,6 +594,7 @@ def full_brier(ctx, use_model=True):
             fb, ob = xr.broadcast(fcst, obs)
             sq = xr.apply_ufunc(np.vectorize(lambda a, b: float("nan") if (np.isnan(a) or np.isnan(b)) else float((Fraction(float(a)) - Fraction(float(b))) ** 2)),
                                 fb, ob)
+            ctx.count("brier:oracle_checked")
             compare_with_oracle(ctx, "brier_score differs from the weighted NaN-skipping mean of (f - o)^2 (exact oracle)", sq, w, impl[1], desc)
         # property: rejects exactly the invalid inputs (when checking), otherwise equals mse
         invalid = bad in ("fcst", "obs")
@@ -545,6 +603,7 @@ def full_brier(ctx, use_model=True):
             if impl != ("err", "err:ValueError"):
                 ctx.violation("brier_score(check_args=True) accepted an out-of-range forecast / non-binary observation", desc, "err:ValueError", str(impl[1])[:200])
         else:
+            ctx.count("brier:vs_mse_checked")
             same = (impl[0] == mse[0]) and (impl[1] == mse[1] if impl[0] == "err" else
                                             np.allclose(np.asarray(impl[1]), np.asarray(mse[1]), rtol=0, atol=1e-12, equal_nan=True))
             if not same:
